@@ -186,6 +186,9 @@ def gen_spec(seed):
     spec = _gen_spec(seed)
     # the callers of some runs keep one instance of every object they serialize and of every decoded document
     # they pass to DictDecoder (an own stream of choices, so that the rest of the run is what it was before)
+    if random.Random(seed ^ 0x1A5B).random() < 0.1:
+        # one prefix map for everything these callers do: parsers record into it, serializers receive the same object
+        spec["share_nsmap"] = True
     if random.Random(seed ^ 0x5A17).random() < 0.2:
         spec["share_inputs"] = True
         for step in spec["steps"]:
@@ -196,6 +199,7 @@ def gen_spec(seed):
 def run_spec(spec, R):
     core.child_init()
     O.SHARED_INPUTS = {} if spec.get("share_inputs") else None
+    O.SHARED_NSMAP = {} if spec.get("share_nsmap") else None
     byname = core.Z.op_by_name
     envs = [O.Env() for _ in range(spec.get("nctx", 1))]
     viol = []
@@ -264,7 +268,8 @@ def run_spec(spec, R):
                     "sig": ["history", "O1", op.kind, rec["k"], rec["v"].split(":")[0] if rec["k"] == "exc" else "value"],
                 }
             )
-        elif fault is None and (op.name, m) in R:
+        elif fault is None and (op.name, m) in R and not (spec.get("share_nsmap") and op.kind in ("ser_xml", "tree_ser")):
+            # (with a caller-held prefix map the output of a serializer legitimately follows what the map has collected)
             ref = R[(op.name, m)]
             if not O.same(rec, ref):
                 viol.append(
